@@ -36,8 +36,12 @@ def sh(cmd, cwd=None, timeout=None, env=None, stdin=None):
     e["CARGO_NET_OFFLINE"] = "true"
     if env:
         e.update(env)
-    p = subprocess.run(cmd, cwd=cwd, shell=isinstance(cmd, str), stdout=subprocess.PIPE,
-                       stderr=subprocess.STDOUT, timeout=timeout, env=e, stdin=stdin)
+    try:
+        p = subprocess.run(cmd, cwd=cwd, shell=isinstance(cmd, str), stdout=subprocess.PIPE,
+                           stderr=subprocess.STDOUT, timeout=timeout, env=e, stdin=stdin)
+    except subprocess.TimeoutExpired as ex:
+        out = (ex.stdout or b"").decode("utf-8", "replace")
+        return 124, out + f"\n[wfcheck] command timed out after {timeout}s: {cmd if isinstance(cmd, str) else ' '.join(cmd)}"
     out = p.stdout.decode("utf-8", "replace")
     out = "\n".join(l for l in out.splitlines() if "auto_activate_base" not in l)
     return p.returncode, out
@@ -72,7 +76,7 @@ def build_harness(features=(), profile="release"):
         if profile != "release":
             tdir = tdir + "-" + profile
         cmd += ["--target-dir", tdir]
-        rc, out = sh(cmd, cwd=HARNESS, timeout=3000)
+        rc, out = sh(cmd, cwd=HARNESS, timeout=14400)
         return rc, out, os.path.join(tdir, profile, "wfh")
 
 
@@ -125,7 +129,7 @@ def audit(pid):
         for mod, n in names:
             fh.write(f"#print axioms Wf.Props.{mod}.{n}\n")
     with Lock("lake"):
-        rc, out = sh(["lake", "env", "lean", f], cwd=LEAN, timeout=1800)
+        rc, out = sh(["lake", "env", "lean", f], cwd=LEAN, timeout=7200)
     axioms = {}
     for m in re.finditer(r"'Wf\.Props\.([A-Za-z0-9_]+)\.([^']+)' (does not depend on any axioms|depends on axioms: \[([^\]]*)\])", out, flags=re.S):
         if m.group(1) not in prop_modules(pid):
